@@ -295,3 +295,11 @@ Lemma byte_shr4_and3 b : byte_ok b -> Z.land (Z.shiftr b 4) 3 = bitsf [b] 2 2.
 Proof. revert b. apply byte_sweep_Z. vm_compute. reflexivity. Qed.
 Lemma byte_and127 b : byte_ok b -> Z.land b 127 = bitsf [b] 1 7.
 Proof. revert b. apply byte_sweep_Z. vm_compute. reflexivity. Qed.
+
+(* decidable form of bytes_ok, for concrete byte strings *)
+Definition bytes_okb (bs : list Z) : bool := forallb (fun b => (0 <=? b) && (b <? 256)) bs.
+Lemma bytes_okb_ok bs : bytes_okb bs = true -> bytes_ok bs.
+Proof.
+  unfold bytes_okb. intros H. apply Forall_forall. intros x Hx.
+  rewrite forallb_forall in H. specialize (H x Hx). unfold byte_ok. lia.
+Qed.
